@@ -2,7 +2,8 @@
 (* Trace validation for the CRDT clause of C07. The NDJSON file (env          *)
 (* TRACE_FILE) holds concatenated traces recorded from real crdt.Consensus    *)
 (* replicas:                                                                  *)
-(*   {"ev":"init","trust":{"a":{"all":..,"set":[..]},..}}   (starts a trace)  *)
+(*   {"ev":"init","trust":{"a":{"all":..,"set":[..]},..},"quiet":[..]}         *)
+(*        starts a trace; quiet = replicas that never rebroadcast in it       *)
 (*   {"ev":"publish","r":..,"u":{"s":..,"n":..}}   LogPin on replica r        *)
 (*   {"ev":"trust"|"distrust","r":..,"p":..}       Trust/Distrust on r        *)
 (*   {"ev":"observe","r":..,"pins":[{"s","n"}..]}  r's pinset after settling  *)
@@ -19,7 +20,10 @@ Lines == ndJsonDeserialize(IOEnv.TRACE_FILE)
 N == Len(Lines)
 Rng(s) == {s[i] : i \in 1..Len(s)}
 
-TrustOf(e) == [r \in Reps |-> [all |-> e.trust[r].all, set |-> Rng(e.trust[r].set)]]
+\* nodes of Reps that a script does not use trust nobody and never act
+TrustOf(e) == [r \in Reps |-> IF r \in DOMAIN e.trust
+                               THEN [all |-> e.trust[r].all, set |-> Rng(e.trust[r].set)]
+                               ELSE [all |-> FALSE, set |-> {}]]
 
 \* ---- (2) property verdict by folding the trust history
 EverAt[i \in 0..N] ==
@@ -30,34 +34,68 @@ EverAt[i \in 0..N] ==
            [] OTHER          -> EverAt[i - 1]
 PBad == {i \in 1..N : Lines[i].ev = "observe" /\ ~PinsetOK(EverAt[i], Lines[i].r, Rng(Lines[i].pins))}
 
+\* ---- (2b) the sharper reading: an update enters r's pinset only inside a head SIGNED by a peer
+\* that r trusts when it arrives. MaxAt[i] is the largest pinset each replica can have after line
+\* i under that rule: every head that exists is delivered at once to everybody whose validator
+\* accepts its signer (deliveries only add, so eager delivery is an upper bound of every
+\* schedule). Heads exist when their signer publishes and, for replicas not listed as "quiet"
+\* (rebroadcast interval far beyond the script), at any time (rebroadcast of the current heads).
+Val(tr, r, signer) == tr[r].all \/ signer = r \/ signer \in tr[r].set
+RECURSIVE Sat(_)
+Sat(st) ==
+    LET ms == st.msgs \cup {[from |-> r, content |-> st.dag[r]] : r \in {q \in Reps \ st.quiet : st.dag[q] # {}}}
+        dg == [r \in Reps |-> st.dag[r] \cup
+                  UNION {m.content : m \in {x \in ms : x.from # r /\ Val(st.trust, r, x.from)}}]
+    IN IF dg = st.dag /\ ms = st.msgs THEN st ELSE Sat([st EXCEPT !.dag = dg, !.msgs = ms])
+NoDag == [r \in Reps |-> {}]
+MaxAt[i \in 0..N] ==
+    IF i = 0 THEN [trust |-> [r \in Reps |-> [all |-> FALSE, set |-> {}]], dag |-> NoDag, msgs |-> {}, quiet |-> {}]
+    ELSE LET e == Lines[i]
+             p == MaxAt[i - 1] IN
+         CASE e.ev = "init"     -> [trust |-> TrustOf(e), dag |-> NoDag, msgs |-> {}, quiet |-> Rng(e.quiet)]
+           [] e.ev = "publish"  -> LET d2 == [p.dag EXCEPT ![e.r] = @ \cup {[s |-> e.u.s, n |-> e.u.n]}]
+                                   IN Sat([p EXCEPT !.dag = d2, !.msgs = @ \cup {[from |-> e.r, content |-> d2[e.r]]}])
+           [] e.ev = "trust"    -> Sat([p EXCEPT !.trust[e.r].set = @ \cup {e.p}])
+           [] e.ev = "distrust" -> [p EXCEPT !.trust[e.r].set = @ \ {e.p}]
+           [] OTHER             -> p
+Obs(i) == {[s |-> u.s, n |-> u.n] : u \in Rng(Lines[i].pins)}
+\* violation: the pinset holds something that no trusted signer's head can have carried
+PBadSigner == {i \in 1..N : Lines[i].ev = "observe" /\ ~(Obs(i) \subseteq MaxAt[i].dag[Lines[i].r])}
+\* conformance only: less than what complete delivery gives (used for final observations of
+\* scripts whose connectivity guarantees delivery)
+PShort == {i \in 1..N : Lines[i].ev = "observe" /\ Obs(i) # MaxAt[i].dag[Lines[i].r]}
+
 ASSUME ndJsonSerialize(IOEnv.VERDICT_FILE,
         <<[n |-> N, observes |-> Cardinality({i \in 1..N : Lines[i].ev = "observe"}),
-           traces |-> Cardinality({i \in 1..N : Lines[i].ev = "init"}), bad |-> PBad]>>)
+           traces |-> Cardinality({i \in 1..N : Lines[i].ev = "init"}), bad |-> PBad,
+           badsigner |-> PBadSigner, short |-> PShort]>>)
 
 \* ---- (1) behaviour search
-VARIABLE l
-tvars == <<pvars, l>>
+VARIABLES l, quiet
+tvars == <<pvars, l, quiet>>
 
 Mark == TLCSet(1, IF TLCGet(1) < l THEN l ELSE TLCGet(1))
 
 Init == /\ l = 2 /\ Lines[1].ev = "init" /\ InitWith(TrustOf(Lines[1])) /\ TLCSet(1, 1)
+        /\ quiet = Rng(Lines[1].quiet)
 
 Cur == Lines[l]
 TReset ==
     /\ l <= N /\ Cur.ev = "init"
     /\ trust' = TrustOf(Cur) /\ ever' = EverOf(TrustOf(Cur))
     /\ dag' = [r \in Reps |-> {}] /\ msgs' = {} /\ npub' = 0 /\ nact' = 0
+    /\ quiet' = Rng(Cur.quiet)
     /\ l' = l + 1 /\ Mark
-TPublish  == l <= N /\ Cur.ev = "publish"  /\ Publish(Cur.r, [s |-> Cur.u.s, n |-> Cur.u.n]) /\ l' = l + 1 /\ Mark
-TTrust    == l <= N /\ Cur.ev = "trust"    /\ Trust(Cur.r, Cur.p)    /\ l' = l + 1 /\ Mark
-TDistrust == l <= N /\ Cur.ev = "distrust" /\ Distrust(Cur.r, Cur.p) /\ l' = l + 1 /\ Mark
+TPublish  == l <= N /\ Cur.ev = "publish"  /\ Publish(Cur.r, [s |-> Cur.u.s, n |-> Cur.u.n]) /\ l' = l + 1 /\ Mark /\ UNCHANGED quiet
+TTrust    == l <= N /\ Cur.ev = "trust"    /\ Trust(Cur.r, Cur.p)    /\ l' = l + 1 /\ Mark /\ UNCHANGED quiet
+TDistrust == l <= N /\ Cur.ev = "distrust" /\ Distrust(Cur.r, Cur.p) /\ l' = l + 1 /\ Mark /\ UNCHANGED quiet
 TObserve  == /\ l <= N /\ Cur.ev = "observe"
              /\ dag[Cur.r] = {[s |-> u.s, n |-> u.n] : u \in Rng(Cur.pins)}
-             /\ UNCHANGED pvars /\ l' = l + 1 /\ Mark
+             /\ UNCHANGED <<pvars, quiet>> /\ l' = l + 1 /\ Mark
 Silent    == /\ l <= N
              /\ \/ \E m \in msgs, r \in Reps : Deliver(m, r)
-                \/ \E r \in Reps : Rebroadcast(r)
-             /\ UNCHANGED l
+                \/ \E r \in Reps \ quiet : Rebroadcast(r)
+             /\ UNCHANGED <<l, quiet>>
 Next == TReset \/ TPublish \/ TTrust \/ TDistrust \/ TObserve \/ Silent
 Spec == Init /\ [][Next]_tvars
 
